@@ -458,12 +458,21 @@ pub fn generate(s: &mut Session, thorough: bool) -> bool {
             // the steep first 150 ns
             pick.extend((3..20).filter(|_| rng.below(4) == 0));
         }
-        g.last = None;
-        for j in pick {
-            let t = knots[j].0;
-            g.point("knot", z, ulp_down(t));
-            g.point("knot", z, t);
-            g.point("knot", z, ulp_up(t));
+        // thorough: also at the slice's upper bound (both signs) and just above the previous bound
+        let mut zs = vec![z];
+        if thorough {
+            zs.push(tb[i].1);
+            zs.push(-tb[i].1);
+            zs.push(if i == 0 { 0.0 } else { ulp_up(tb[i - 1].1) });
+        }
+        for z in zs {
+            g.last = None;
+            for &j in &pick {
+                let t = knots[j].0;
+                g.point("knot", z, ulp_down(t));
+                g.point("knot", z, t);
+                g.point("knot", z, ulp_up(t));
+            }
         }
     }
 
